@@ -91,7 +91,7 @@ def mutation_lines(chk, n):
         else:
             chunks.append(rng.choice(pay))
             chunks.append("</stream:stream>" + rng.choice(pay))
-        cmds = ["conn", "jid " + H("user@example.com/res" if mech != "ANONYMOUS" else "example.com"), "pass " + H("secret"), "flags %d" % flags,
+        cmds = ["conn", "log", "jid " + H("user@example.com/res" if mech != "ANONYMOUS" else "example.com"), "pass " + H("secret"), "flags %d" % flags,
                 "cb %s %s" % (H("tls-exporter"), "00" * 32), "smcb", "hdef 0 s - - - 1", "hadd 0", "connect client", "run"]
         for c in chunks:
             data = c.encode("latin1")
@@ -110,6 +110,16 @@ def mutation_lines(chk, n):
             cmds += ["disc", "run", "clock 2000", "run"]
         cmds += ["run", "is", "connect client", "run", "rx " + HDR.encode().hex(), "run", "run", "is", "release"]
         lines.append(";".join(cmds))
+    # malformed chunks that fill the 4096-byte read buffer (exactly, and around it), with the logger installed
+    for stage in (0, 1, 2):
+        pre = [HDR, negsim.item_xml(negsim.features(False, ["PLAIN"]))][:stage]
+        for size in (4095, 4096, 4097, 8192):
+            for bad in ("<a>" + "x" * (size - 7) + "</b>", "x" * size, "<" + "a" * (size - 1)):
+                cmds = ["conn", "log", "jid " + H("user@example.com/res"), "pass " + H("secret"), "connect client", "run"]
+                for c in pre:
+                    cmds += ["rx " + c.encode().hex(), "run", "run"]
+                cmds += ["rx " + bad.encode().hex(), "run", "run", "run", "is", "connect client", "run", "rx " + HDR.encode().hex(), "run", "is", "release"]
+                lines.append(";".join(cmds))
     return lines
 
 
